@@ -50,6 +50,7 @@ inductive Sk
   | ite (a b : Sk)
   | succ (n : String) (k : Sk)
   | resp (n : String) (k : Sk)
+  | attempt (i n : Nat) (k : Sk)     -- start of the i-th of n attempts of an unrolled bounded retry loop (no effect of its own)
   | ret (r : Ret)
   deriving Repr, Inhabited
 
@@ -108,6 +109,11 @@ def Ev.isFail : Ev → Bool | .sfail .. => true | _ => false
 def Ev.isSucc : Ev → Bool | .succ _ => true | _ => false
 def Ev.isResp : Ev → Bool | .resp _ => true | _ => false
 def Ev.isAbs : Ev → Bool | .absorbed .. => true | _ => false
+/-- a call at this call site into the storage (or through a function value), whatever its outcome -/
+def Ev.isCallAt (f s : Nat) : Ev → Bool
+  | .sfail f' s' _ => f' == f && s' == s
+  | .sok f' s' => f' == f && s' == s
+  | _ => false
 /-- a call into the storage (or through a function value), whatever its outcome -/
 def Ev.isCall : Ev → Bool | .sfail .. => true | .sok .. => true | _ => false
 
@@ -157,6 +163,7 @@ inductive Run (P : List Fn) (A : Audit) : Nat → Sk → Env → List Ev → CV 
   | iteR {f a b ρ tr r} : Run P A f b ρ tr r → Run P A f (.ite a b) ρ tr r
   | succ {f n k ρ tr r} : Run P A f k ρ tr r → Run P A f (.succ n k) ρ (.succ n :: tr) r
   | resp {f n k ρ tr r} : Run P A f k ρ tr r → Run P A f (.resp n k) ρ (.resp n :: tr) r
+  | attempt {f i n k ρ tr r} : Run P A f k ρ tr r → Run P A f (.attempt i n k) ρ tr r
   | ret {f rt ρ x} : RetVal A.benign ρ rt x → Run P A f (.ret rt) ρ [] x
 
 /-! ## what "fails closed" means for the events after a failure -/
@@ -174,17 +181,22 @@ def exitOK : FKind → CV → List Ev → Bool
   | .bool, x, _ => x.isHard
   | .val, _, _ => false
 
-/-- the events `t` after a failure, up to the exit with `x`: the failure was absorbed at an audited site, or no success
-    step and no further storage call is executed and the function ends in the error class -/
-def closed (κ : FKind) (x : CV) (t : List Ev) : Bool :=
-  hasAbs t || (noSucc t && noFail t && exitOK κ x t)
+/-- the same call site is called again later: the failed attempt was retried (the later attempt is judged on its own) -/
+def retriedAt (f s : Nat) (t : List Ev) : Bool := t.any (Ev.isCallAt f s)
+
+/-- the events `t` after the failure `e`, up to the exit with `x`: the failure was absorbed at an audited site, or the same
+    call was retried, or no success step and no further storage call is executed and the function ends in the error class -/
+def closedFor (κ : FKind) (x : CV) (e : Ev) (t : List Ev) : Bool :=
+  match e with
+  | .sfail f s _ => hasAbs t || retriedAt f s t || (noSucc t && noFail t && exitOK κ x t)
+  | _ => true
 
 /-- every failure in the trace is followed by a closed suffix -/
-def GoodW (C : List Ev → Prop) : List Ev → Prop
+def GoodW (C : Ev → List Ev → Prop) : List Ev → Prop
   | [] => True
-  | e :: t => (e.isFail = true → C t) ∧ GoodW C t
+  | e :: t => (e.isFail = true → C e t) ∧ GoodW C t
 
-def Good (κ : FKind) (x : CV) (tr : List Ev) : Prop := GoodW (fun t => closed κ x t = true) tr
+def Good (κ : FKind) (x : CV) (tr : List Ev) : Prop := GoodW (fun e t => closedFor κ x e t = true) tr
 
 /-! ## the static analysis -/
 
@@ -208,8 +220,9 @@ def AV.sat : AV → CV → Bool
   | _, _ => false
 
 /-- `clean`: no failure is pending (`after`: a failure was absorbed at the tolerated site, only the listed steps may follow);
-    `failed`: the failure of the call at `site` is pending; `answered`: an error responder has run since -/
-inductive Mode | clean (after : Option (Nat × List String)) | failed (site : Nat) (answered : Bool)
+    `failed`: the failure of the call at `site` is pending; `answered`: an error responder has run since;
+    `retry`: the failed call was a call into the storage itself, which may be attempted again (bounded retry loop) -/
+inductive Mode | clean (after : Option (Nat × List String)) | failed (site : Nat) (answered : Bool) (retry : Bool)
   deriving DecidableEq, Repr, Inhabited
 
 inductive DropKind | succAfter | callAfter | retNotErr | noResponse | noErrorResult
@@ -231,6 +244,7 @@ def retsNil : Sk → Bool
   | .ite a b => retsNil a && retsNil b
   | .succ _ k => retsNil k
   | .resp _ k => retsNil k
+  | .attempt _ _ k => retsNil k
   | .ret r => r == .nil
 
 def Fn.noErrResult (F : Fn) : Bool := F.kind == .void || F.kind == .val
@@ -248,30 +262,43 @@ def afterCheck (after : Option (Nat × List String)) (step : String) (what : Dro
   | none => []
 
 /-- the mode in which the continuation of a call runs when the call handed back a hard error -/
-def hardMode (tolS : List (Nat × List String)) (site : Nat) : Mode :=
+def hardMode (tolS : List (Nat × List String)) (site : Nat) (leaf : Bool) : Mode :=
   match tolLookup tolS site with
   | some allow => .clean (some (site, allow))
-  | none => .failed site false
+  | none => .failed site false leaf
+
+/-- may a call at `site` be made in mode m?  In clean mode always (`some after`); while the failure of a call into the storage
+    is pending only the same call site again - a retry, whose outcome supersedes the failure -/
+def callMode (m : Mode) (site : Nat) (leaf : Bool) : Option (Option (Nat × List String)) :=
+  match m with
+  | .clean r => some r
+  | .failed s _ rt => if rt && leaf && s == site then some none else none
+
+def Mode.pendingSite : Mode → Option Nat
+  | .clean _ => none
+  | .failed s _ _ => some s
 
 /-- the paths on which the pending failure of a call is dropped: (site of the failed call, what happens instead) -/
 def drops (P : List Fn) (benign : List String) (sites : List String) (tolS : List (Nat × List String)) (κ : FKind) :
     Sk → AEnv → Mode → List (Nat × DropKind)
-  | .call site c v k, a, .clean r =>
-    (match c with
-    | .delegate _ =>
-      drops P benign sites tolS κ k (a.set v .U) (.clean r) ++ drops P benign sites tolS κ k (a.set v .U) (.failed site true)
-    | .op fs =>
-      drops P benign sites tolS κ k (a.set v .N) (.clean r) ++
-      (if anyErrKind P fs then
-        drops P benign sites tolS κ k (a.set v .S) (.clean r) ++
-        drops P benign sites tolS κ k (a.set v .H) (hardMode tolS site)
-       else []) ++
-      (if anyVoid P fs then drops P benign sites tolS κ k (a.set v .N) (.failed site true) else [])
-    | _ =>
-      drops P benign sites tolS κ k (a.set v .N) (.clean r) ++ drops P benign sites tolS κ k (a.set v .S) (.clean r) ++
-      drops P benign sites tolS κ k (a.set v .H) (hardMode tolS site)) ++
-    afterCheck r (sites.getD site "") .callAfter
-  | .call _ _ _ _, _, .failed s _ => [(s, .callAfter)]
+  | .call site c v k, a, m =>
+    match callMode m site c.isLeaf with
+    | none => (match m.pendingSite with | some s => [(s, .callAfter)] | none => [])
+    | some r =>
+      (match c with
+      | .delegate _ =>
+        drops P benign sites tolS κ k (a.set v .U) (.clean r) ++ drops P benign sites tolS κ k (a.set v .U) (.failed site true false)
+      | .op fs =>
+        drops P benign sites tolS κ k (a.set v .N) (.clean r) ++
+        (if anyErrKind P fs then
+          drops P benign sites tolS κ k (a.set v .S) (.clean r) ++
+          drops P benign sites tolS κ k (a.set v .H) (hardMode tolS site false)
+         else []) ++
+        (if anyVoid P fs then drops P benign sites tolS κ k (a.set v .N) (.failed site true false) else [])
+      | _ =>
+        drops P benign sites tolS κ k (a.set v .N) (.clean r) ++ drops P benign sites tolS κ k (a.set v .S) (.clean r) ++
+        drops P benign sites tolS κ k (a.set v .H) (hardMode tolS site true)) ++
+      afterCheck r (sites.getD site "") .callAfter
   | .kill v k, a, m => drops P benign sites tolS κ k (a.set v .U) m
   | .ifErr v x y, a, m =>
     match a.get v with
@@ -285,11 +312,12 @@ def drops (P : List Fn) (benign : List String) (sites : List String) (tolS : Lis
     | _ => drops P benign sites tolS κ x a m ++ drops P benign sites tolS κ y a m
   | .ite x y, a, m => drops P benign sites tolS κ x a m ++ drops P benign sites tolS κ y a m
   | .succ n k, a, .clean r => drops P benign sites tolS κ k a (.clean r) ++ afterCheck r n .succAfter
-  | .succ _ _, _, .failed s _ => [(s, .succAfter)]
+  | .succ _ _, _, .failed s _ _ => [(s, .succAfter)]
   | .resp _ k, a, .clean r => drops P benign sites tolS κ k a (.clean r)
-  | .resp _ k, a, .failed s _ => drops P benign sites tolS κ k a (.failed s true)
+  | .resp _ k, a, .failed s _ rt => drops P benign sites tolS κ k a (.failed s true rt)
+  | .attempt _ _ k, a, m => drops P benign sites tolS κ k a m
   | .ret _, _, .clean _ => []
-  | .ret r, a, .failed s ans =>
+  | .ret r, a, .failed s ans _ =>
     match κ with
     | .void => if ans then [] else [(s, .noResponse)]
     | .val => [(s, .noErrorResult)]
@@ -310,6 +338,7 @@ def calleesIn (n : Nat) : Sk → Bool
   | .ite a b => calleesIn n a && calleesIn n b
   | .succ _ k => calleesIn n k
   | .resp _ k => calleesIn n k
+  | .attempt _ _ k => calleesIn n k
   | .ret _ => true
 
 /-- the (function, sentinel) pairs of all `errors.Is / errors.As` tests on followed variables -/
@@ -321,6 +350,7 @@ def sentinelTests : Sk → List String
   | .ite a b => sentinelTests a ++ sentinelTests b
   | .succ _ k => sentinelTests k
   | .resp _ k => sentinelTests k
+  | .attempt _ _ k => sentinelTests k
   | .ret _ => []
 
 /-- the storage methods a tree calls -/
@@ -332,6 +362,7 @@ def storageMethods : Sk → List String
   | .ite a b => storageMethods a ++ storageMethods b
   | .succ _ k => storageMethods k
   | .resp _ k => storageMethods k
+  | .attempt _ _ k => storageMethods k
   | .ret _ => []
 
 def dedupStr (l : List String) : List String := l.foldr (fun s acc => if acc.contains s then acc else s :: acc) []
@@ -401,6 +432,7 @@ def exec (P : List Fn) (A : Audit) : Nat → Nat → Sk → Env → List Choice 
     | _ => none
   | n + 1, f, .succ nm k, ρ, cs => (exec P A n f k ρ cs).map fun r => (.succ nm :: r.1, r.2)
   | n + 1, f, .resp nm k, ρ, cs => (exec P A n f k ρ cs).map fun r => (.resp nm :: r.1, r.2)
+  | n + 1, f, .attempt _ _ k, ρ, cs => exec P A n f k ρ cs
   | _ + 1, _, .ret rt, ρ, cs =>
     match retValue A.benign ρ rt with
     | some x => some ([], x, cs)
@@ -429,6 +461,7 @@ def afterStorageCall (m : String) : Sk → Option (Nat × Sk)
   | .ite a b => (afterStorageCall m a).orElse fun _ => afterStorageCall m b
   | .succ _ k => afterStorageCall m k
   | .resp _ k => afterStorageCall m k
+  | .attempt _ _ k => afterStorageCall m k
   | .ret _ => none
 
 /-- the outermost error constructors of the returns reachable while variable v holds x (tests of v are decided by x,
@@ -447,6 +480,7 @@ def wrapsOn (benign : List String) (v : Nat) (x : CV) : Sk → List String
   | .ite a b => wrapsOn benign v x a ++ wrapsOn benign v x b
   | .succ n k => ("<succ:" ++ n ++ ">") :: wrapsOn benign v x k
   | .resp _ k => wrapsOn benign v x k
+  | .attempt _ _ k => wrapsOn benign v x k
   | .ret (.var v' _ w) => if v' = v then [w] else ["<other variable>"]
   | .ret (.fresh _ w) => ["<fresh:" ++ w ++ ">"]
   | .ret .nil => ["<nil>"]
